@@ -497,6 +497,24 @@ def mc_brackets(ctx):
         res = tlc(ctx.work, "MC_Brackets", cfg, workers=1, timeout=300, tag="MC_Brackets_" + w)
         if "Invariant %s is violated" % w not in res.out:
             raise ToolError("vacuity gate: MC_Brackets witness %s was not refuted:\n%s" % (w, tlc_text(res, 20)))
+    if not ctx.quick:
+        # thorough tier: the same lemma for unbounded time, proved by TLAPS (SMT back end); "not discharged" is
+        # recorded and is never a verdict about the code
+        import shutil, subprocess
+        from common import VERIF
+        d = ctx.work.fresh("tlaps_", "d")
+        os.makedirs(d)
+        shutil.copy(os.path.join(VERIF, "spec", "proofs", "BracketsLemma.tla"), d)
+        try:
+            p = subprocess.run(["timeout", "300", "tlapm", "--threads", "4", "BracketsLemma.tla"], cwd=d,
+                               capture_output=True, text=True)
+            proved = "obligations proved" in (p.stdout + p.stderr) and "failed" not in (p.stdout + p.stderr).lower()
+            last = [l for l in (p.stdout + p.stderr).splitlines() if "obligation" in l][-1:]
+        except Exception as e:          # tlapm missing or broken: a limit of the sandbox, not of the code
+            proved, last = False, [str(e)]
+        ctx.extra = getattr(ctx, "extra", {})
+        ctx.extra["tlaps_BracketsLemma"] = {"proved": proved, "summary": last}
+        log("TLAPS BracketsLemma: %s %s" % ("proved" if proved else "NOT discharged", last))
 
 
 def measured_clock_run(ctx, T=300):
